@@ -7,7 +7,7 @@
          comparisons, `int()`, `float(int)` — modelled by its IEEE-754 meaning: exact result, then `roundBits`
          (round to nearest, ties to even).  That part is trusted (CPython/C runtime), not verified;
        * `e8m0Enc`/`e8m0Dec` (bitstore_helpers.py:174-185, bits.py:800-804), `mxintEnc`/`mxintDec`
-         (bitstore_helpers.py:188-209, bits.py:806-808), `bfloatEnc`/`bfloatDec` (bitstore_helpers.py:109-117, bits.py:833-849).
+         (bitstore_helpers.py:188-200, bits.py:806-808), `bfloatEnc`/`bfloatDec` (bitstore_helpers.py:109-117, bits.py:833-849).
   SPEC * `e8m0Spec`, `mxintDecSpec`, `IsNearestEvenInt`/`rneDiv`/`mxintCodeSpec`, `ieeeNarrow` (IEEE conversion).
 -/
 import BitstringModel.Model.Basic
@@ -186,22 +186,30 @@ def e8m0Enc (f : Nat) : Except Err Nat :=
   | some i => .ok i
   | none => .error .value
 
-/-- `mxint2bitstore` (bitstore_helpers.py:188-209), statement by statement. -/
+/-- `i` is the integer nearest to `num/den`, ties to even. -/
+def IsNearestEvenInt (num : Int) (den : Nat) (i : Int) : Prop :=
+  2 * (i * den - num).natAbs ≤ den ∧ (2 * (i * den - num).natAbs = den → i % 2 = 0)
+
+/-- Round-half-even of `num/den` (`den > 0`), executable. -/
+def rneDiv (num : Int) (den : Nat) : Int :=
+  let q := num / (den : Int)
+  let r := num % (den : Int)
+  if 2 * r < den then q else if (den : Int) < 2 * r then q + 1 else q + q % 2
+
+/-- `round(f)` for a finite float (CPython `float.__round__` without `ndigits`): the nearest integer, ties to even,
+    computed exactly on the value of the float. -/
+def f64Round (a : Nat) : Int :=
+  match f64Val a with
+  | .fin s m e => rneDiv (sgnMant s (dyadicNum m e)) (dyadicDen e)
+  | _ => 0
+
+/-- `mxint2bitstore` (bitstore_helpers.py:188-200), statement by statement. -/
 def mxintEnc (f : Nat) : Except Err Nat :=
   if isNaN64 f then .error .value else
   let f := f64Mul f (f64OfInt 64)                       -- f *= 2 ** 6
   if f64Gt f (f64OfInt 127) then .ok 0x7f else          -- if f > 127: '01111111'
   if f64Le f (f64OfInt (-128)) then .ok 0x80 else       -- if f <= -128: '10000000'
-  let half := pow2F64 (-1)
-  let i : Int :=
-    if f64Ge f 0 then                                    -- if f >= 0.0:
-      let g := f64Add f half                             --   f += 0.5
-      let i := f64Trunc g                                --   i = int(f)
-      if f64Eq (f64Sub g (f64OfInt i)) 0 && i % 2 != 0 then i - 1 else i    -- if f - i == 0.0 and i % 2: i -= 1
-    else
-      let g := f64Sub f half                             --   f -= 0.5
-      let i := f64Trunc g
-      if f64Eq (f64Sub g (f64OfInt i)) 0 && i % 2 != 0 then i + 1 else i
+  let i := f64Round f                                    -- i = round(f)
   -- int2bitstore(i, 8, True)
   if -128 ≤ i ∧ i ≤ 127 then .ok (i % 256).toNat else .error .value
 
@@ -235,16 +243,6 @@ def e8m0Spec (c : Nat) : FVal := if c = 255 then .nan else .fin false 1 ((c : In
 
 def mxintDecSpec (c : Nat) : FVal := FVal.mk (decide (128 ≤ c)) (int8 c).natAbs (-6)
 
-/-- `i` is the integer nearest to `num/den`, ties to even. -/
-def IsNearestEvenInt (num : Int) (den : Nat) (i : Int) : Prop :=
-  2 * (i * den - num).natAbs ≤ den ∧ (2 * (i * den - num).natAbs = den → i % 2 = 0)
-
-/-- Round-half-even of `num/den` (`den > 0`), executable. -/
-def rneDiv (num : Int) (den : Nat) : Int :=
-  let q := num / (den : Int)
-  let r := num % (den : Int)
-  if 2 * r < den then q else if (den : Int) < 2 * r then q + 1 else q + q % 2
-
 /-- The mxint code the property demands for the exact value `(−1)^neg · m · 2^e`: nearest-even of `64·x`,
     saturating at 127 and −128. -/
 def mxintCodeSpec (neg : Bool) (m : Nat) (e : Int) : Nat :=
@@ -252,9 +250,5 @@ def mxintCodeSpec (neg : Bool) (m : Nat) (e : Int) : Nat :=
   let den : Nat := dyadicDen (e + 6)
   let i := rneDiv num den
   if 127 < i then 0x7f else if i < -128 then 0x80 else (i % 256).toNat
-
-/-- Inputs on which `mxint2bitstore` is known to differ from `mxintCodeSpec`: `64·|f| = 0.5 + 2⁻⁵³`
-    (`f += 0.5` rounds to 1.0, which the tie rule then takes for an exact tie). -/
-def mxintDeviates (f : Nat) : Bool := f % 2 ^ 63 == 0x3f80000000000001
 
 end BM.C11
